@@ -8,6 +8,19 @@ non-UTC offset, equal validFrom; two configuration entries for one label (equal 
 not); identifiers incl. the unescaped boundary (`"`, `<`, `&`: recorded, not judged); output to --trustanchor, to
 filenames.output_trustanchor, to stdout; `--hsm` restricting the modules; token faults; key / algorithm mismatches.
 
+KEY-TAG BOUNDARIES (every run, both tiers; variant "keytag-boundary", and mixed into the random cases).  RFC 4034 App. B
+adds the high part of the 32-bit accumulator `ac` ONCE and truncates.  The places where a plausible re-implementation
+differs are rare among random keys (~2^-10), so they are put on the token on purpose, as configured KSKs, under
+algorithms 5 / 8 / 10 and every placement:
+  * fixtures/special.json `carry` (real RSA keys with (ac & 0xFFFF) + (ac >> 16) >= 0x10000: a second fold, an
+    end-around carry, or a 16-bit accumulator give another tag), `revcarry` (low word >= 0xFF80), `twins` (two
+    different keys with the same tag: both configured -> two KeyDigest entries with equal KeyTag);
+  * a lattice of public-only token keys (keys.craft_modulus_with_acc; the exporter only reads public objects) with
+    (ac & 0xFFFF) + (ac >> 16) = 0x10000 + d for d in {-2, -1, 0, 1, 2, random}, i.e. tags 65534, 65535, 0, 1, 2, ...,
+    and with low word 0x0000 / 0xFFFF / 0xFF7F / 0xFF80, for moduli of 1024 / 2048 / 3072 / 4096 bits and exponents
+    3 / 65537 / 2^32+1.
+The oracle for all of them is dnspython, as for every other key.
+
 The REAL `kskm.tools.trustanchor.trustanchor(logger, args, config)` runs against the token emulator.  The written
 document is parsed with xml.etree.ElementTree.
 
@@ -70,10 +83,72 @@ IDS = ["ta-1", "380DC50D-484E-40D0-A3AE-68F2B18F61C7", "id with spaces", "ünï"
 BOUNDARY_IDS = ['a"b', "a<b", "a&b", 'q" other="1']
 
 
+_PUB: dict[str, K.TestKey] = {}
+
+
 def key_of(ref: list[Any]) -> K.TestKey:
+    """["rsa", bits, e, i] / ["ec", curve, i]: fixtures/keys.json;  ["special", "carry"|"revcarry", i] / ["special", "twins", pair, i]:
+    fixtures/special.json;  ["pub", e, modulus hex]: public-only material carried by the case itself (replayable)."""
     if ref[0] == "rsa":
         return K.rsa_keys(ref[1], ref[2])[ref[3]]
+    if ref[0] == "special":
+        x = K.special()[ref[1]]
+        for i in ref[2:]:
+            x = x[i]
+        return x
+    if ref[0] == "pub":
+        key = json.dumps(ref)
+        if key not in _PUB:
+            _PUB[key] = K.public_only_key(int(ref[2], 16), ref[1])
+        return _PUB[key]
     return K.ec_keys(ref[1])[ref[2]]
+
+
+def special_refs() -> list[list[Any]]:
+    sp = K.special()
+    out: list[list[Any]] = [["special", kind, i] for kind in ("carry", "revcarry") for i in range(len(sp[kind]))]
+    out += [["special", "twins", p, i] for p in range(len(sp["twins"])) for i in (0, 1)]
+    return out
+
+
+FOLD_DELTAS = [-2, -1, 0, 1, 2]
+LOW_WORDS = [0x0000, 0xFFFF, 0xFF7F, 0xFF80]
+
+
+def crafted_ref(r: Any, alg: int, n_len: int, e: int, *, fold: int | None = None, low: int | None = None) -> list[Any]:
+    """Public-only key whose flags-257 / `alg` accumulator has (ac & 0xFFFF) + (ac >> 16) == 0x10000 + fold, or low word == low."""
+    if fold is not None:
+        pred = lambda ac: (ac & 0xFFFF) + (ac >> 16) == 0x10000 + fold  # noqa: E731
+    else:
+        pred = lambda ac: (ac & 0xFFFF) == low  # noqa: E731
+    return ["pub", e, hex(K.craft_modulus_with_acc(pred, 257, alg, r, n_len, e))]
+
+
+def key_class(ref: list[Any]) -> str:
+    if ref[0] == "rsa":
+        return f"rsa{ref[1]}"
+    if ref[0] == "special":
+        return "special:" + ref[1]
+    if ref[0] == "pub":
+        return "crafted-public"
+    return ref[1]
+
+
+def tag_shape(ref: list[Any], alg: int) -> list[str]:
+    """Which key-tag boundary classes the flags-257 DNSKEY of this key falls into (for the evidence counters)."""
+    tk = key_of(ref)
+    if tk.kind != "rsa":
+        return []
+    ac = K.tag_accumulator(K.dnskey_rdata(tk, 257, alg))
+    f = (ac & 0xFFFF) + (ac >> 16)
+    out = []
+    if f >= 0x10000:
+        out.append("fold-carries")
+    if 0xFFFE <= f <= 0x10002:
+        out.append(f"fold-sum=0x10000{f - 0x10000:+d}")
+    if (ac & 0xFFFF) >= 0xFF80:
+        out.append("low-word>=0xFF80")
+    return out
 
 
 def pick_key(r: Any, used: set[str]) -> tuple[list[Any], int]:
@@ -82,6 +157,15 @@ def pick_key(r: Any, used: set[str]) -> tuple[list[Any], int]:
             curve = r.choice(["P-256", "P-384"])
             ref = ["ec", curve, r.randrange(len(K.ec_keys(curve)))]
             alg = 13 if curve == "P-256" else 14
+        elif r.random() < 0.12:
+            # key-tag boundary keys among the ordinary ones (module docstring)
+            alg = r.choice([8, 8, 8, 10, 5])
+            if r.random() < 0.6:
+                ref = r.choice(special_refs())
+            elif r.random() < 0.7:
+                ref = crafted_ref(r, alg, r.choice([128, 256, 384, 512]), r.choice([3, 65537, 65537, 4294967297]), fold=r.choice(FOLD_DELTAS + [r.randrange(3, 24)]))
+            else:
+                ref = crafted_ref(r, alg, r.choice([128, 256, 384, 512]), r.choice([3, 65537, 65537, 4294967297]), low=r.choice(LOW_WORDS))
         else:
             bits, e = r.choice(RSA_PROFILES)
             ref = ["rsa", bits, e, r.randrange(len(K.rsa_keys(bits, e)))]
@@ -122,6 +206,48 @@ def gen_case(r: Any, n: int | None = None) -> dict[str, Any]:
         "variant": "plain",
     }
     return case
+
+
+def keytag_boundary_cases(r: Any) -> list[dict[str, Any]]:
+    """Deterministic block (same in both tiers): every special fixture key and a lattice of crafted public keys as a
+    configured KSK next to 0..2 ordinary ones; the twins configured together."""
+    out = []
+
+    def entry(i: int, ref: list[Any], alg: int, place: str) -> dict[str, Any]:
+        return {"name": f"s{i}", "label": f"S{'abcdefgh'[i]}_{i}", "key": ref, "alg": alg, "valid_from": r.choice(VALID_FROM), "valid_until": r.choice(VALID_UNTIL), "place": place, "wrapped": True}
+
+    def case_with(entries: list[dict[str, Any]], n_other: int) -> dict[str, Any]:
+        c = gen_case(r, n_other)
+        c["ksks"] = [k for k in c["ksks"] if k["key"][0] in ("rsa", "ec")][:n_other]
+        pos = r.randrange(len(c["ksks"]) + 1)
+        c["ksks"][pos:pos] = entries
+        c["variant"] = "keytag-boundary"
+        return c
+
+    present = ["present", "present", "public_only", "second_slot", "second_module"]
+    n = 0
+    for ref in special_refs():
+        for alg in (8, 10, 5):
+            out.append(case_with([entry(0, ref, alg, present[n % len(present)])], n % 3))
+            n += 1
+    # both twins configured (equal key tags in one document), and all special keys at once
+    for p in range(len(K.special()["twins"])):
+        for alg in (8, 10, 5):
+            out.append(case_with([entry(0, ["special", "twins", p, 0], alg, "present"), entry(1, ["special", "twins", p, 1], alg, r.choice(present))], n % 2))
+            n += 1
+    out.append(case_with([entry(i, ref, 8, "present") for i, ref in enumerate(special_refs())], 0))
+    # the special keys where the exporter must NOT list them
+    for ref, place in zip(special_refs(), ["absent", "private_only", "refused_slot", "absent"]):
+        out.append(case_with([entry(0, ref, 8, place)], 1))
+    # crafted lattice around the fold carry and the REVOKE carry
+    for n_len, e in ((128, 65537), (256, 65537), (384, 3), (512, 65537), (256, 4294967297), (128, 3)):
+        for alg in (8, 10) if n_len in (128, 256) else (8,):
+            for d in FOLD_DELTAS + [r.randrange(3, 24)]:
+                out.append(case_with([entry(0, crafted_ref(r, alg, n_len, e, fold=d), alg, present[n % len(present)])], n % 2))
+                n += 1
+            for low in LOW_WORDS:
+                out.append(case_with([entry(0, crafted_ref(r, alg, n_len, e, low=low), alg, "present")], 0))
+    return out
 
 
 def special_cases(r: Any) -> list[dict[str, Any]]:
@@ -463,7 +589,13 @@ def judge(case: dict[str, Any], run: dict[str, Any], res: Result) -> bool:
         ec_algs = sorted({k["alg"] for k in case["ksks"] if key_of(k["key"]).kind == "ec" and present_on_token(case, k)})
         rsa_part = lambda c: Counter({e: n for e, n in c.items() if e[4] not in (13, 14)})  # noqa: E731
         if rsa_part(got_c) != rsa_part(want) or {e[:3] for e in got_c} != {e[:3] for e in want}:
-            res.violation("exported KeyDigest set differs from the configured keys present on the token (RSA part / ids / validity)", case, key="entries", got=sorted(got_c, key=repr), want=sorted(want, key=repr))
+            strip = lambda c, cols: Counter({tuple(e[i] for i in cols): n for e, n in c.items()})  # noqa: E731
+            if strip(got_c, (0, 1, 2, 4)) == strip(want, (0, 1, 2, 4)):
+                # the same keys under the same ids / validity / algorithms: what differs is a stated key tag or digest of an RSA key
+                only_tag = strip(rsa_part(got_c), (0, 1, 2, 4, 5)) == strip(rsa_part(want), (0, 1, 2, 4, 5))
+                res.violation(WHAT_DS, case, key="rsa:keytag" if only_tag else "rsa:digest", got=sorted(rsa_part(got_c) - rsa_part(want), key=repr), want=sorted(rsa_part(want) - rsa_part(got_c), key=repr))
+            else:
+                res.violation("exported KeyDigest set differs from the configured keys present on the token (RSA part / ids / validity)", case, key="entries", got=sorted(got_c, key=repr), want=sorted(want, key=repr))
         elif got_c == want_prefixed:
             for a in ec_algs:
                 res.violation(WHAT_DS, case, key=f"ecdsa:alg{a}", got=sorted((e for e in got_c if e[4] == a), key=repr), want=sorted((e for e in want if e[4] == a), key=repr), note="the exported value is the DS of the SEC 1 point WITH its 0x04 octet (DESIGN §5 F4)")
@@ -521,10 +653,14 @@ def run(tier: str, driver_ok: bool) -> Result:
     res.rule = (
         "0..4 configured KSKs x {RSA 1024..4096 with exponents 3/17/65537/65539/2^32+1, P-256, P-384} x placement {present, absent, private only, "
         "public only, second slot, second module, slot refusing login, duplicate} x 0..3 unconfigured token keys x validity variants x identifiers x "
-        "output {--trustanchor, filenames.output_trustanchor, stdout} + fault positions 0..25 + --hsm + family mismatches; non-trivial = distinct case"
+        "output {--trustanchor, filenames.output_trustanchor, stdout} + fault positions 0..25 + --hsm + family mismatches; "
+        "in EVERY run the key-tag boundary block: fixtures/special.json carry / revcarry / twins keys (real RSA keys whose RFC 4034 accumulator needs the second-fold carry to be DROPPED, "
+        "whose low word is >= 0xFF80, pairs with equal tags) and crafted public-only token keys with fold sum 0x10000-2..+2 (tags 65534, 65535, 0, 1, 2) and low words 0x0000/0xFFFF/0xFF7F/0xFF80 "
+        "for 1024..4096-bit moduli, exponents 3/65537/2^32+1, algorithms 5/8/10, as configured KSKs in every exporting placement (counters keytag:*), also mixed into 12 % of the random key picks; "
+        "non-trivial = distinct case"
     )
     r = lib.rng("C18")
-    cases = special_cases(r)
+    cases = keytag_boundary_cases(lib.rng("C18:keytag-boundary")) + special_cases(r)
     n = 1000 if tier == "quick" else 6000
     for i in range(5):
         for _ in range(n // 5):
@@ -538,7 +674,9 @@ def run(tier: str, driver_ok: bool) -> Result:
         res.bump("outcome:" + ("ok" if "ok" in run_["impl"] else "error"))
         for k in case["ksks"]:
             res.bump("place:" + k["place"].split(":")[0])
-            res.bump("key:" + (f"rsa{k['key'][1]}" if k["key"][0] == "rsa" else k["key"][1]))
+            res.bump("key:" + key_class(k["key"]))
+            for shape in tag_shape(k["key"], k["alg"]):
+                res.bump("keytag:" + shape + (":exported" if present_on_token(case, k) and "ok" in run_["impl"] else ":not-exported"))
         run_["violated"] = judge(case, run_, res)
         runs.append(run_)
         if len(res.samples) < 3 and "ok" in run_["impl"] and len(case["ksks"]) >= 2 and not run_["violated"]:
